@@ -312,12 +312,15 @@ def read_str_fixed(reader: io.BytesIO, l: int) -> bytes:
 
 
 def read_str_null(reader: io.BytesIO) -> bytes:
-    data = b""
-    while True:
-        b = reader.read(1)
-        if b == b"\x00":
-            return data
-        data += b
+    start = reader.tell()
+    buffer = reader.getvalue()
+    end = buffer.find(b"\x00", start)
+    if end < 0:
+        # Unterminated string: take what is left instead of waiting for a terminator
+        reader.seek(len(buffer))
+        return buffer[start:]
+    reader.seek(end + 1)
+    return buffer[start:end]
 
 
 def read_str_len(reader: io.BytesIO) -> bytes:
